@@ -41,11 +41,20 @@ class SetMutator(CollectionAttrMutator):
             raise ValueError(
                 f"Attempted to add an invalid item `{repr(item)}` to `{self.attr_spec.qualified_name}`. Expected item of type `{type_label(self.attr_spec.item_type)}`."
             )
+        previous = MISSING
         if index is not MISSING and replace and index is not item:
             # (Nothing to discard if the item is replaced by itself; and then we
             # avoid transiently removing it from the collection.)
+            _, previous = self._extractor(index)
             self.collection.discard(index)
-        self.collection.add(item)
+        try:
+            self.collection.add(item)
+        except BaseException:
+            # The incoming item was rejected by the collection itself (e.g. it
+            # is not hashable): put back the item it was meant to replace.
+            if previous is not MISSING:
+                self.collection.add(previous)
+            raise
 
     def add_item(self, item, *, value_or_index=MISSING, replace=True, attrs=None):  # pylint: disable=arguments-differ
         return self._mutate_collection(
